@@ -230,7 +230,9 @@ class CropperMonitor:
                     ctx.count("ambiguous[time_shift_integer_guard]")
                     return
                 start, stop = oracles.shift_crop(fr, N)
-                want_len = len(range(*slice(start, N + stop).indices(N)))
+                b_, e_ = oracles.kept_range(start, N + stop, N)
+                want_len = e_ - b_
+                feats = dict(feats, beyond_length=bool(N + stop < 0))
                 if len(out) != want_len:
                     ctx.violation(o, f"cropped time_shift returned {len(out)} samples, expected {want_len} (N={N}, shifts {sh[:6]})",
                                   None, dict(feats, what="len"))
@@ -281,7 +283,9 @@ class CropperMonitor:
             if amb:
                 ctx.count("ambiguous[coherent_integer_delay]")
                 return
-            want_len = len(range(*slice(start, stop).indices(N)))
+            b_, e_ = oracles.kept_range(start, stop, N)
+            want_len = e_ - b_
+            feats = dict(feats, beyond_length=bool(stop < 0))
             if len(out) != want_len:
                 ctx.violation(o, f"coherent dedispersion returned {len(out)} samples, expected {want_len} (N={N}, crop {start}:{stop})",
                               None, dict(feats, what="len"))
